@@ -195,6 +195,20 @@ def c03(pid, tier, t0):
         "mtime has one-second granularity: an external change within the same tick as the editor's own write is not 'newer'"], level="model_checking")
 
 
+@check("C14")
+def c14(pid, tier, t0):
+    exe = nv.build_harness("c14_subst", "asan", ["c14_subst.c"], wraps=WRAPS)
+    res = nv.run_shards(exe, ["tier=" + tier, "deadline=%d" % dl(tier)], nv.NCPU, dl(tier) + 120)
+    return nv.finish(pid, tier, t0, res, {
+        "rule": "32 curated patterns (literals, anchors, word boundaries, empty-matching, groups, alternation, bounds) and all pattern ASTs of <= 2 nodes x 12 replacements "
+                "(empty, literal, \\0 \\1 \\2 \\9, [\\1\\2], \\\\, \\/, \\x, multi-byte) x g on/off x ic on/off x every line of <= line_len characters over {a,b,space,U+00E9,A} placed between two guard lines; "
+                "plus range/empty-pattern cases on a 4-line buffer; distinct_nontrivial = substitutions in which the reference changes the line",
+        "depth_bound": res.stats.get("line_len"),
+        "explanation": "the real :s command (ex_command on an initialised editor, AddressSanitizer build); reference = leftmost first-parse of ref_re from the scan position judged in the whole original line, "
+                       "replacement expansion as stated in the property; guard lines must stay byte-identical; results must be valid UTF-8",
+    }, ["patterns with an unbounded repetition of a nullable sub-term are skipped", "& in the replacement is not part of the property and not used"])
+
+
 def replay(path):
     print("replay artefact:")
     print(open(path).read())
